@@ -43,6 +43,10 @@ pub struct HCtl {
     pub waker: Option<Waker>,
     /// if set, poll_close yields these events before finishing
     pub close_events: VecDeque<Value>,
+    /// number of outbound substream requests the handler emits on its next polls
+    pub request_outbound: usize,
+    /// negotiated streams held by the handler (None = dropped)
+    pub streams: Vec<Option<libp2p_swarm::Stream>>,
 }
 
 pub type HShared = Arc<Mutex<HCtl>>;
@@ -322,6 +326,13 @@ impl ConnectionHandler for ProbeHandler {
         if let Some(v) = g.to_behaviour.pop_front() {
             return Poll::Ready(ConnectionHandlerEvent::NotifyBehaviour(v));
         }
+        if g.request_outbound > 0 {
+            g.request_outbound -= 1;
+            self.log.push(json!({"e": "hRequestOut", "b": self.beh, "id": self.conn}));
+            return Poll::Ready(ConnectionHandlerEvent::OutboundSubstreamRequest {
+                protocol: SubstreamProtocol::new(ProbeUpgrade { protocols: vec!["/probe".to_string()] }, ()),
+            });
+        }
         g.waker = Some(cx.waker().clone());
         Poll::Pending
     }
@@ -349,6 +360,18 @@ impl ConnectionHandler for ProbeHandler {
             ConnectionEvent::RemoteProtocolsChange(ProtocolsChange::Removed(a)) => {
                 self.log.push(json!({"e": "hRemoteProto", "b": self.beh, "id": self.conn, "kind": "removed", "protos": names(a)}))
             }
+            ConnectionEvent::FullyNegotiatedOutbound(o) => {
+                let mut g = self.ctl.lock().unwrap();
+                g.streams.push(Some(o.protocol.0));
+                self.log.push(json!({"e": "hStream", "b": self.beh, "id": self.conn, "dir": "out", "k": g.streams.len() - 1}));
+            }
+            ConnectionEvent::FullyNegotiatedInbound(i) => {
+                let mut g = self.ctl.lock().unwrap();
+                g.streams.push(Some(i.protocol.0));
+                self.log.push(json!({"e": "hStream", "b": self.beh, "id": self.conn, "dir": "in", "k": g.streams.len() - 1}));
+            }
+            ConnectionEvent::DialUpgradeError(_) => self.log.push(json!({"e": "hDialUpgradeError", "b": self.beh, "id": self.conn})),
+            ConnectionEvent::ListenUpgradeError(_) => self.log.push(json!({"e": "hListenUpgradeError", "b": self.beh, "id": self.conn})),
             ConnectionEvent::AddressChange(a) => self.log.push(json!({"e": "hAddressChange", "b": self.beh, "id": self.conn, "new": a.new_address.to_string()})),
             _ => {}
         }
